@@ -28,6 +28,7 @@ type Program struct {
 	specDir  string // override dir for contract files (development)
 	pureExt  map[string]bool
 	immutHeaps map[string]bool // field heaps declared immutable
+	missingAnchors []string   // contracts whose function no longer exists
 	immutNonNil map[string]bool // ... and never nil once their constructor has returned (`f!`)
 	models   map[string]modelFn
 	inlinableMemo map[*ssa.Function]bool
@@ -159,7 +160,7 @@ func loadProgram(repoDir, specDir string, patterns []string) (*Program, error) {
 	}
 	// resolve contracts to functions
 	for path, ps := range P.specs {
-		for _, name := range ps.Order {
+		for _, name := range append([]string(nil), ps.Order...) {
 			con := ps.Contracts[name]
 			if strings.HasPrefix(name, "iface.") {
 				con.Trusted = true
@@ -181,11 +182,33 @@ func loadProgram(repoDir, specDir string, patterns []string) (*Program, error) {
 			}
 			fn := P.funcs[path+"::"+name]
 			if fn == nil {
-				return nil, fmt.Errorf("%s:%d: contract for %s: no such function in %s (anchor missing)", con.File, con.Line, name, path)
+				// the function a contract is written for is gone (renamed, removed, restructured): everything that was
+				// proved about it is lost; the check reports that as a violation and goes on with the other contracts
+				P.missingAnchors = append(P.missingAnchors, fmt.Sprintf("%s:%d: contract for %s: no such function in %s (anchor missing)", con.File, con.Line, name, path))
+				delete(ps.Contracts, name)
+				var kept []string
+				for _, n := range ps.Order {
+					if n != name {
+						kept = append(kept, n)
+					}
+				}
+				ps.Order = kept
+				continue
 			}
 			P.byFunc[fn] = con
 			if err := P.resolveModifies(fn, con); err != nil {
-				return nil, fmt.Errorf("%s:%d: %v", con.File, con.Line, err)
+				// the frame of a contract no longer fits the code (a field it names is gone): same treatment
+				P.missingAnchors = append(P.missingAnchors, fmt.Sprintf("%s:%d: contract for %s: %v (anchor missing)", con.File, con.Line, name, err))
+				delete(P.byFunc, fn)
+				delete(ps.Contracts, name)
+				var kept []string
+				for _, n := range ps.Order {
+					if n != name {
+						kept = append(kept, n)
+					}
+				}
+				ps.Order = kept
+				continue
 			}
 		}
 	}
